@@ -76,11 +76,18 @@ func normIn(t *TyDef, v *Val) *Val {
 		}
 		out := &Val{K: "l"}
 		for _, e := range v.L {
-			if t.Elem.under().K == "ptr" && e.P == nil {
-				if isVarintKind(t.Elem.under().Elem) {
+			eu := t.Elem.under()
+			var pointee *TyDef
+			if eu.K == "ptr" {
+				pointee = eu.Elem
+			} else if eu.K == "ext" {
+				pointee = extPayload[eu.Name] // an invalid null value is an absent entry, as a nil pointer is
+			}
+			if pointee != nil && e.P == nil {
+				if isVarintKind(pointee) {
 					continue // nil entries of integer pointer slices are dropped
 				}
-				out.L = append(out.L, &Val{K: "p", P: zeroVal(t.Elem.under().Elem)})
+				out.L = append(out.L, &Val{K: "p", P: zeroVal(pointee)})
 				continue
 			}
 			out.L = append(out.L, normIn(t.Elem, e))
